@@ -13,6 +13,7 @@ from .core import Obligation
 
 RLIMIT = int(os.environ.get('PYVC_RLIMIT', 30_000_000))
 CLI_TIMEOUT = int(os.environ.get('PYVC_CLI_TIMEOUT', 60))
+Z3_TIMEOUT_MS = int(os.environ.get('PYVC_Z3_TIMEOUT_MS', 60000))
 
 
 @dataclass
@@ -54,15 +55,21 @@ def _model_dict(m: z3.ModelRef):
 
 def _cli(smt2: str, strings: bool):
     """Try external solvers; returns (status, backend)."""
+    import re as _re
+    # z3 prints characters as (_ Char N); cvc5 wants (_ char #xH)
+    smt2_cvc5 = _re.sub(r'\(_ Char (\d+)\)', lambda m: '(_ char #x%X)' % int(m.group(1)), smt2)
     with tempfile.NamedTemporaryFile('w', suffix='.smt2', delete=False, dir=os.environ.get('PYVC_TMP', None)) as f:
         f.write(smt2)
         path = f.name
+    with tempfile.NamedTemporaryFile('w', suffix='.smt2', delete=False, dir=os.environ.get('PYVC_TMP', None)) as f:
+        f.write('(set-logic ALL)\n' + smt2_cvc5)
+        path5 = f.name
     try:
         cmds = []
         cv = ['/usr/bin/cvc5', '--tlimit=%d' % (CLI_TIMEOUT * 1000)]
         if strings:
             cv.append('--strings-exp')
-        cmds.append(('cvc5-1.0.3', cv + [path]))
+        cmds.append(('cvc5-1.0.3', cv + [path5]))
         cmds.append(('z3-4.8.12', ['/usr/bin/z3', '-T:%d' % CLI_TIMEOUT, path]))
         for name, cmd in cmds:
             try:
@@ -76,16 +83,18 @@ def _cli(smt2: str, strings: bool):
                 return 'sat', name
         return 'unknown', ''
     finally:
-        try:
-            os.unlink(path)
-        except OSError:
-            pass
+        for pth in (path, path5):
+            try:
+                os.unlink(pth)
+            except OSError:
+                pass
 
 
 def discharge_one(ob: Obligation, want_model=True):
     t0 = time.time()
     s = z3.Solver()
     s.set('rlimit', RLIMIT)
+    s.set('timeout', Z3_TIMEOUT_MS)
     for p in ob.pc:
         s.add(p)
     s.add(z3.Not(ob.goal))
@@ -105,6 +114,7 @@ def discharge_one(ob: Obligation, want_model=True):
 def cover_ok(ob: Obligation):
     s = z3.Solver()
     s.set('rlimit', RLIMIT)
+    s.set('timeout', Z3_TIMEOUT_MS)
     for p in ob.pc:
         s.add(p)
     return s.check() != z3.unsat
